@@ -1,16 +1,19 @@
 #!/usr/bin/env bash
-# usage: multiseed.sh "<seeds>" [props...] — runs a snapshot of the built binary for several VERIF_SEED values
-# (evidence and replays go to a scratch root) and lists every alarm. Used to keep the false-alarm rate at zero.
+# usage: multiseed.sh "<seeds>" [props...] — runs a private copy of the built binary for several VERIF_SEED
+# values (evidence and replays go to a scratch root) and lists every alarm. Used to keep the false-alarm
+# rate on the unchanged tree at zero for seeds other than the default one.
 seeds="$1"; shift
-props="${@:-C03 C04 C05 C06 C07 C08 C09 C10 C11 C12 C13 C14 C15 C16 C18}"
-root=/tmp/ms_root; mkdir -p $root; cp /verif/known_findings.jsonl $root/
-cp /verif/.build/release/nutsim /tmp/nutsim_snapshot
+props="${@:-C01 C02 C03 C04 C05 C06 C07 C08 C09 C10 C11 C12 C13 C14 C15 C16 C18}"
+root=/tmp/ms_root_$$; mkdir -p "$root"; cp /verif/known_findings.jsonl "$root"/
+snap=/tmp/nutsim_copy_$$
+cp /verif/.build/release/nutsim "$snap"
 for s in $seeds; do
   for p in $props; do
-    out=$(VERIF_ROOT=$root /tmp/nutsim_snapshot check $p --seed $s 2>&1)
+    out=$(VERIF_ROOT=$root "$snap" check "$p" --seed "$s" 2>&1)
     code=$?
     line=$(echo "$out" | grep -E "quick:|thorough:" | tail -1)
     echo "seed=$s $p exit=$code $line"
     if [ $code -ne 0 ]; then echo "$out" | grep -E "key:|detail:|HARNESS" | cut -c1-400 | head -12; fi
   done
 done
+rm -rf "$snap" "$root"
